@@ -1,3 +1,15 @@
 package props
 
-func runExtractor() string { return "" }
+import (
+	"path/filepath"
+
+	"verifharness/internal/extract"
+)
+
+// runExtractor regenerates lean/GqlModel/Gen from /repo's current sources.
+func runExtractor() string {
+	if err := extract.RunFacts("/repo", filepath.Join(Root, "lean")); err != nil {
+		return err.Error()
+	}
+	return ""
+}
